@@ -208,3 +208,51 @@ Lemma model_passes_checker M :
   forall s inputs, inputs <> [] -> s <> [] ->
   hunks_okb s inputs (hunks (run_steps M s inputs)) = true.
 Proof. intros V E s inputs Hi Hs. apply hunks_okb_spec. now apply hunks_ok_thm. Qed.
+
+(** * Meaning of [C03.okb] on the bare matching and LCS cases *)
+Lemma matching_validb_gen_spec {T} (eqb : T -> T -> bool) (lw rw : list T) m :
+  matching_validb eqb lw rw m = true <->
+  valid_matching (length lw) (length rw) m
+  /\ Forall (fun p => exists a b, nth_error lw (fst p) = Some a /\ nth_error rw (snd p) = Some b
+                                  /\ eqb a b = true) m.
+Proof.
+  unfold matching_validb, eq_matchingb. rewrite Bool.andb_true_iff, valid_matchingb_spec, forallb_forall, Forall_forall.
+  split; intros (A & B); (split; [exact A|]); intros p Hp; specialize (B p Hp).
+  - destruct (nth_error lw (fst p)) as [a|]; [|discriminate]. destruct (nth_error rw (snd p)) as [b|]; [|discriminate].
+    eauto.
+  - destruct B as (a & b & -> & -> & E). exact E.
+Qed.
+
+Lemma okb_match_spec l r im same panicked :
+  okb (MatchCase l r im same panicked) = true <->
+  panicked = false /\ same = true
+  /\ valid_matching (length l) (length r) (nat_pairs im)
+  /\ Forall (fun p => exists a, nth_error l (fst p) = Some a /\ nth_error r (snd p) = Some a) (nat_pairs im).
+Proof.
+  cbn [okb]. rewrite !Bool.andb_true_iff, Bool.negb_true_iff, matching_validb_gen_spec. split.
+  - intros ((A & B) & C & D). split; [exact A|]. split; [exact B|]. split; [exact C|].
+    eapply Forall_impl; [|exact D].
+    intros p (a & b & Ha & Hb & E). apply N.eqb_eq in E. subst b. eauto.
+  - intros (A & B & C & D). split; [split; assumption|]. split; [exact C|].
+    eapply Forall_impl; [|exact D].
+    intros p (a & Ha & Hb). exists a, a. split; [exact Ha|]. split; [exact Hb|]. apply N.eqb_refl.
+Qed.
+
+Lemma okb_lcs_spec input res panicked :
+  okb (LcsCase input res panicked) = true <->
+  panicked = false
+  /\ StronglySorted lt2 (nat_pairs res)
+  /\ (forall q, In q (nat_pairs res) -> nth_error (map N.to_nat input) (snd q) = Some (fst q))
+  /\ (input <> [] -> res <> []).
+Proof.
+  cbn [okb]. unfold lcs_validb.
+  rewrite !Bool.andb_true_iff, Bool.negb_true_iff, incrb_sorted, forallb_forall, Bool.orb_true_iff, Bool.negb_true_iff.
+  split.
+  - intros ((A & B & C) & D). repeat split; auto.
+    + intros q Hq. specialize (C q Hq). destruct (nth_error (map N.to_nat input) (snd q)) as [l|]; [|discriminate].
+      apply Nat.eqb_eq in C. now subst.
+    + intros Hi. destruct D as [D|D]; [destruct input; [congruence|discriminate]|]. destruct res; [discriminate|discriminate].
+  - intros (A & B & C & D). repeat split; auto.
+    + intros q Hq. rewrite (C q Hq). apply Nat.eqb_refl.
+    + destruct input as [|x t]; [now left|right]. destruct res; [exfalso; apply D; [discriminate|reflexivity]|reflexivity].
+Qed.
